@@ -26,9 +26,9 @@ NA = {
 
 CHECKS = {
  'C06': dict(
-  text='Seeded search over (a) simulator-chosen iteration orders of every set the checkers build (order seam), (b) presentations of one abstract input - state bijections onto other types, equal-but-distinct state objects per use, shuffled/omitted/duplicated collections in other container types, atom renamings, unreachable padding, initial states - and (c) real PYTHONHASHSEED values in fresh unpatched interpreters; the oracle is the library\'s own answer under the canonical presentation mapped through the renaming. Seam-only divergences are reported only after real unpatched executions disagree. Sampling, not proof.',
+  text='Seeded search over (a) simulator-chosen iteration orders of every set the checkers build (order seam), (b) presentations of one abstract input - state bijections onto other types, equal-but-distinct state objects per use, shuffled/omitted/duplicated collections in other container types, atom renamings, unreachable padding, initial states, order and container types of the fairness constraints - and (c) real PYTHONHASHSEED values in fresh unpatched interpreters; the oracle is the library\'s own answer under the canonical presentation mapped through the renaming. Seam-only divergences are reported only after real unpatched executions disagree. Sampling, not proof.',
   ref='DESIGN.md 3.1, 5',
-  note='Trusted: the harness\' presentation mapping and un-mapping; SimSet explores a superset of CPython\'s iteration orders and is therefore only a candidate generator; known finding KF1 is attributed through its trigger predicate (known_findings.txt). Bounds: <=8 states for CTL, <=6 for CTL*, <=5 for LTL (plus <=2 padding states), depth <=5 (CTL) / <=3, <=3 temporal operators for LTL/CTL*.',
+  note='Trusted: the harness\' presentation mapping and un-mapping; SimSet explores a superset of CPython\'s iteration orders and is therefore only a candidate generator; known finding KF1 is attributed through its trigger predicate (known_findings.txt); known finding KF2 (an atom renamed to the printed form of a subformula) lies outside the sampled renamings (plain names only) and is re-demonstrated from its witness file on every run. Bounds: <=8 states for CTL, <=6 for CTL*, <=5 for LTL (plus <=2 padding states), depth <=5 (CTL) / <=3, <=3 temporal operators for LTL/CTL*.',
   tech=TECH + ' (scheduler-owned set iteration order + presentation perturbation + PYTHONHASHSEED sweep in fresh interpreters, differential against the canonical execution)'),
  'C07': dict(
   text='Seeded search over call histories on a shared pool of structures, formula objects/texts, fairness lists and parsers, in three configurations: fault-free, fault-injecting (calls cut short by SimAbort/MemoryError/RecursionError at chosen line events inside repository code) and interleaved (a complete second call executed at a chosen line event inside the first); histories include in-place edits of a structure by the caller and formulas whose atoms are named like names the library generated internally (name feedback); after every operation deep snapshots of every argument are compared and every un-faulted call is compared with the same call in a pristine forked process. Sampling, not proof.',
@@ -38,7 +38,7 @@ CHECKS = {
  'C16': dict(
   text='Seeded search over create/combine/drop/GC histories of OBDDs with the collector driven by the simulator (between and inside operations, deferred reclamation through reference cycles, allocation churn); canonicity, unique-table and terminal invariants checked after every step against a truth-table model. Sampling, not proof.',
   ref='DESIGN.md 3.3',
-  note='Trusted: the sparse truth-table model (support <=10 variables per function), the diagram walker, CPython 3.12 gc/weakref semantics. Bounds: universes of 4-120 variables, 40-400 steps, up to 160 live diagrams, 2-3 orderings (plus ordering storms).',
+  note='Trusted: the sparse truth-table model (support <=10 variables per function), the diagram walker, CPython 3.12 gc/weakref semantics. Bounds: universes of 4-120 variables, random expressions plus random truth tables over 4-5 variables, 40-400 steps, up to 160 live diagrams, 2-3 orderings (plus ordering storms).',
   tech=TECH + ' (simulator-scheduled garbage collection and deferred reclamation over seeded operation histories, truth-table reference model)'),
  'C19': dict(
   text='Seeded search over call histories with heterogeneous state/label types and the caller-side fault "mutate a returned set, then query again"; after every operation: no internal error on well-formed queries, result is a set of the structure\'s states, sets handed out earlier keep their value, later calls equal the pristine-process outcome and the structure equals its snapshot. Sampling, not proof.',
@@ -64,7 +64,7 @@ m = {
  }],
  'checks': [],
  'not_applicable': [{'property_id': k, 'reason': v} for k, v in sorted(NA.items())],
- 'notes': 'Two genuine defects were repaired in /repo with "fix:" commits (94ff38b LTL tableau hash-seed dependence; 4776e68 fairness label colliding with a formula atom); one is recorded as known finding KF1 (known_findings.txt). See DESIGN.md section 5.',
+ 'notes': 'Two genuine defects were repaired in /repo with "fix:" commits (94ff38b LTL tableau hash-seed dependence; 4776e68 fairness label colliding with a formula atom); two are recorded as known findings KF1 and KF2 (known_findings.txt). See DESIGN.md section 5.',
 }
 for pid in sorted(CHECKS):
     c = CHECKS[pid]
